@@ -25,6 +25,26 @@ structure CrlExts where
   number : Option Bytes := none
 deriving Repr
 
+/-- the value of one CRL extension (decoded in DER mode from the octets of the extension value) -/
+def crlExtValue (e : CrlExts) (id v : Bytes) : Option CrlExts :=
+  if id = oidAuthorityKeyId then
+    if e.aki.isSome then none
+    else match takeCons tagSeq v with
+      | none => none
+      | some (ac, _) =>
+        match takePrim 0x80 ac with
+        | some (k, r) => if keyIdOk k ∧ r = [] then some { e with aki := some k } else none
+        | none => none
+  else if id = oidCrlNumber then
+    if e.number.isSome then none
+    else match takePrim tagInt v with
+      | none => none
+      | some (nc, _) =>
+        match X509.decodeSerialContent nc with
+        | some n => some { e with number := some n }
+        | none => none
+  else none
+
 /-- one CRL extension; the criticality flag is read and ignored -/
 def crlExtension (e : CrlExts) (c : Bytes) : Option CrlExts :=
   match takeOid c with
@@ -37,25 +57,7 @@ def crlExtension (e : CrlExts) (c : Bytes) : Option CrlExts :=
     | some r1 =>
       match takePrim tagOctetString r1 with
       | none => none
-      | some (v, r2) =>
-        if r2 ≠ [] then none
-        else if id = oidAuthorityKeyId then
-          if e.aki.isSome then none
-          else match takeCons tagSeq v with
-            | none => none
-            | some (ac, _) =>
-              match takePrim 0x80 ac with
-              | some (k, r) => if keyIdOk k ∧ r = [] then some { e with aki := some k } else none
-              | none => none
-        else if id = oidCrlNumber then
-          if e.number.isSome then none
-          else match takePrim tagInt v with
-            | none => none
-            | some (nc, _) =>
-              match X509.decodeSerialContent nc with
-              | some n => some { e with number := some n }
-              | none => none
-        else none
+      | some (v, r2) => if r2 ≠ [] then none else crlExtValue e id v
 
 /-- `RevokedCertificates::take_from`: an optional SEQUENCE whose content is captured after the counting
 pass; the captured octets and what follows -/
@@ -107,26 +109,29 @@ def decodeTbsCrl (raw : Bytes) : Option (Bool × CrlD) :=
                         some (innerParam, { issuer, thisUpdate, nextUpdate, revoked, aki, number, tbs := raw, signature := [] })
                       | _, _ => none
 
+/-- `Crl::from_constructed` on the content of the CRL SEQUENCE -/
+def crlInner (c : Bytes) : Option CrlD :=
+  if c = [] then none else
+  match skipOne c with
+  | none => none
+  | some r1 =>
+    let raw := c.take (c.length - r1.length)
+    match takeSigAlg r1 with
+    | none => none
+    | some (outerParam, r2) =>
+      match takeBitString r2 with
+      | none => none
+      | some (_, sig, r3) =>
+        if r3 ≠ [] then none else
+        match decodeTbsCrl raw with
+        | none => none
+        | some (innerParam, d) => if innerParam ≠ outerParam then none else some { d with signature := sig }
+
 /-- `Crl::take_from`: one CRL and what follows it -/
 def takeCrl (b : Bytes) : Option (CrlD × Bytes) :=
   match takeCons tagSeq b with
   | none => none
-  | some (c, rest) =>
-    if c = [] then none else
-    match skipOne c with
-    | none => none
-    | some r1 =>
-      let raw := c.take (c.length - r1.length)
-      match takeSigAlg r1 with
-      | none => none
-      | some (outerParam, r2) =>
-        match takeBitString r2 with
-        | none => none
-        | some (_, sig, r3) =>
-          if r3 ≠ [] then none else
-          match decodeTbsCrl raw with
-          | none => none
-          | some (innerParam, d) => if innerParam ≠ outerParam then none else some ({ d with signature := sig }, rest)
+  | some (c, rest) => (crlInner c).map (·, rest)
 
 /-- `Crl::decode` -/
 def decodeCrl (b : Bytes) : Option CrlD := (takeCrl b).map (·.1)
